@@ -65,7 +65,8 @@ var bucketPool = []string{"b1", "b2", "bk", "b", "x"}
 var adversarialBuckets = []string{"a", "ab", "abc", "b", "a|", "k", "ka"}
 
 func mkKVKeys(r *rand.Rand, n int) [][]byte {
-	base := []string{"a", "a\x00", "aa", "ab", "ab\x00", "abc", "b", "ba", "\xff", "\xff\xff", "k", "k0", "\x01"}
+	base := []string{"a", "a\x00", "aa", "ab", "ab\x00", "abc", "b", "ba", "\xff", "\xff\xff", "k", "k0", "\x01",
+		"key-that-is-much-longer-than-the-others-0123456789", "\xff-long-key-at-the-upper-end-of-the-key-space"}
 	seen := map[string]bool{}
 	var out [][]byte
 	add := func(s string) {
@@ -316,7 +317,7 @@ func (g *Gen) setWrite(blindOnly bool) Op {
 }
 
 var zKeys = []string{"", "a", "b", "c", "d", "e", "f", "g", "h", "z1", "z2", "z3", "ka"}
-var zScores = []float64{-1, 0, 0.5, 1, 1, 2, -0.25, 1000, 0}
+var zScores = []float64{-1, 0, 0.5, 1, 1, 2, -0.25, 1000, 0, 0.00002, -3e-7, 4e21, 1e21}
 
 func (g *Gen) zKey() []byte {
 	for {
